@@ -18,7 +18,7 @@ RULE = ("one valid response of each kind (state with CRC-8, state with additive 
         "fix-up, and every body position except the check byte x every value with the outer checksum recomputed. Decoder level "
         "(exhaustive in both tiers): Response.construct must raise InvalidFrameException/InvalidResponseException iff the "
         "independent predicate valid(f) = checksum ok and (id in {B0,B1} or CRC-8 ok or additive ok) is false. Full stack "
-        "(8 values per position quick, all 255 thorough): client with capabilities and state from a good device in S0; device "
+        "(8 values per position quick, all 255 thorough; a quarter of the cases with the host raising warnings attributed to the library's modules as errors, python -W error): client with capabilities and state from a good device in S0; device "
         "switched to S1 (every field, property, capability different) and answering every request of the next refresh() / "
         "get_capabilities() with the corrupted frame; if not valid(f): to_dict(), breeze/ieco and all capability attributes "
         "unchanged, online False, supported False, no exception. Additionally body corruptions with fix-up for valid frames of ten different frame types (incl. pushed reports 0x04 and notifications 0x05), and the header bytes (length byte, appliance type, protocol, frame type) are swept over all substitutes for 24 (quick) / 400 (thorough) different valid frames per kind. Selective corruption (metamorphic, full stack): with the device moved from S0 to S1, over 1..7 refreshes the answers of a subset of kinds {state, energy, humidity, properties} arrive corrupted (1..3 adjacent corrupted copies per batch) and the others intact; the client must end in the same state as one whose device answered those kinds intact with the old values. Non-trivial: not valid(f) and the corruption is not in the last "
@@ -98,7 +98,9 @@ def check_stack(case: dict):
         res["online"], res["supported"] = ac.online, ac.supported
         ac._lan._disconnect()
 
-    vloop.run(main, net)
+    from .. import harness
+    with harness.strict_warnings(bool(case.get("strict"))):       # optionally the host raises the library's warnings as errors (python -W error)
+        vloop.run(main, net)
     if not res["ready"]:
         return ("stack/setup", "client did not come online against the good device")
     if valid:
@@ -196,7 +198,9 @@ def check_mix(case: dict):
             res["online"] = ac.online
             ac._lan._disconnect()
 
-        vloop.run(main, net)
+        from .. import harness
+        with harness.strict_warnings(bool(case.get("strict"))):
+            vloop.run(main, net)
         snaps.append(res)
     got, ref = snaps
     if not got["ready"] or not ref["ready"]:
@@ -278,6 +282,8 @@ def run(ctx) -> None:
                         case = {"kind": kind, "pos": pos, "val": val, "fix": fix, "level": "stack"}
                         if s % 5 == 0:
                             case["extra_at_caps"] = 1 + (s // 5) % 2
+                        if s % 4 == 1:
+                            case["strict"] = True
                         ctx.check(case, lambda c: _run_one(ctx, c))
     ctx.sweep("decoder level: all positions x all 255 substitutes x fix-up", n, True)
     # header bytes (length byte in particular) over many different valid frames of each kind: whether a corrupted
@@ -341,10 +347,10 @@ def run(ctx) -> None:
                             x += 1
                             if ctx.mine(x):
                                 case = {"level": "mix", "bad": list(bad), "copies": copies, "fix": fix, "rounds": rounds, "pos": pos, "val": (pos * 37 + x) & 0xFF,
-                                        "energy_explicit": x % 2 == 0}
+                                        "energy_explicit": x % 2 == 0, "strict": x % 3 == 0}
                                 ctx.check(case, lambda c: _run_mix(ctx, c))
     ctx.sweep("selective corruption: subsets of answer kinds x copies x fix-up x rounds x positions", x, True)
     mix = st.fixed_dictionaries({"level": st.just("mix"), "bad": st.lists(st.sampled_from(MIX_KINDS), min_size=1, max_size=4, unique=True).map(sorted),
                                  "copies": st.integers(1, 3), "fix": st.booleans(), "rounds": st.integers(1, 7), "pos": st.integers(0, 60), "val": st.integers(0, 255),
-                                 "energy_explicit": st.booleans()})
+                                 "energy_explicit": st.booleans(), "strict": st.booleans()})
     ctx.hyp("mix", mix, lambda c: _run_mix(ctx, c), ctx.n(300, 40000))
